@@ -208,7 +208,9 @@ class LoopSpec:
         path = ip.path
         # initiation
         st0 = LoopSpec.State(ip, fr, z3.IntVal(0), n, S)
-        for j, g in enumerate(self._inv_terms(st0)):
+        goals0 = self._inv_terms(st0)
+        ip.reg.saturate(ip)
+        for j, g in enumerate(goals0):
             path.oblige(oid(f"{self.name} / init #{j}"), g, kind="inv-init")
         modified = [m for m in self.assigned_names(st.body) if fr.lookup(m)[0]]
         target_names = [m.id for m in ast.walk(st.target) if isinstance(m, ast.Name)]
@@ -226,6 +228,7 @@ class LoopSpec:
             i = sym.fresh("i_" + self.name, sym.I)
             path.assume(i >= 0)
             path.assume(i < n)
+            ip.reg.loop_index(ip, i)
             sti = LoopSpec.State(ip, fr, i, n, S)
             for g in self._inv_terms(sti):
                 path.assume(g)
@@ -238,7 +241,9 @@ class LoopSpec:
                 # state after break continues after the loop without the invariant at n
                 return
             stn = LoopSpec.State(ip, fr, i + 1, n, S)
-            for j, g in enumerate(self._inv_terms(stn)):
+            goalsn = self._inv_terms(stn)
+            ip.reg.saturate(ip)
+            for j, g in enumerate(goalsn):
                 path.oblige(oid(f"{self.name} / preserve #{j}"), g, kind="inv-preserve")
             raise PathCut()
         # exit: invariant at n
@@ -347,6 +352,7 @@ class Ctx:
             if self.mode == "verify":
                 self.path.assume(f)
             else:
+                self.ip.reg.saturate(self.ip)
                 self.path.oblige(self.ip.cur_oid(f"call {self.contract.short} / {name}"), f, kind="pre",
                                  callee=self.contract.key)
 
@@ -402,14 +408,21 @@ class Contract:
         return self.key.split(":", 1)[1]
 
     def loop_ordinal(self, src, st) -> int:
+        """1-based ordinal of a for/while statement in source order; nested defs have their own numbering."""
         fi = src.funcs[self.key]
-        k = 0
-        for n in ast.walk(fi.node):
-            if isinstance(n, (ast.For, ast.While)):
-                # nested function bodies have their own numbering
-                k += 1
-                if n is st:
-                    return k
+        found = []
+
+        def visit(n):
+            for ch in ast.iter_child_nodes(n):
+                if isinstance(ch, (ast.FunctionDef, ast.Lambda, ast.ClassDef)):
+                    continue
+                if isinstance(ch, (ast.For, ast.While)):
+                    found.append(ch)
+                visit(ch)
+        visit(fi.node)
+        for k, n in enumerate(found):
+            if n is st:
+                return k + 1
         return -1
 
     # ---------------------------------------------------------------- apply at a call site
@@ -520,6 +533,16 @@ class Registry:
     def external(self, name: str):
         return self.externals.get(name)
 
+    def saturate(self, ip):
+        h = getattr(self, "saturate_hook", None)
+        if h is not None:
+            h(ip)
+
+    def loop_index(self, ip, i):
+        h = getattr(self, "loop_index_hook", None)
+        if h is not None:
+            h(ip, i)
+
     def unfolder(self, schema, ip, o):
         for u in self.unfolders:
             u(schema, ip, o)
@@ -592,6 +615,24 @@ class FunctionReport:
     witnesses: list = field(default_factory=list)
 
 
+def make_parent_frame(ip, src, fi):
+    """Frame of the enclosing function for a nested def under proof: its import statements are executed (they bind
+    the class names the nested body refers to); nothing else of the enclosing body is."""
+    if "." not in fi.qualname:
+        return None
+    parent_q = fi.qualname.rsplit(".", 1)[0]
+    pf = src.funcs.get(f"{fi.module}:{parent_q}")
+    if pf is None or pf.cls == parent_q:
+        return None
+    if f"{fi.module}:{parent_q}" not in src.funcs or parent_q in src.modules[fi.module].classes:
+        return None
+    fr = Frame(fi.module, {}, None, pf)
+    for st in pf.node.body:
+        if isinstance(st, (ast.ImportFrom, ast.Import)):
+            ip.exec_stmt(st, fr)
+    return fr
+
+
 def case_product(cases: dict[str, list]) -> list[dict]:
     if not cases:
         return [{}]
@@ -638,21 +679,23 @@ def verify_function(src, registry: Registry, schema_factory, models, ct: Contrac
             path.ghost["ctx"] = c
             outcome, val = "return", None
             try:
-                if fi.cls is not None or True:
-                    val = ip.run_body(fi, args, {}, None, parent_frame=getattr(c, "parent_frame", None))
+                val = ip.run_body(fi, args, {}, None, parent_frame=make_parent_frame(ip, src, fi))
             except RaiseEx as r:
                 outcome, val = "raise", r.exc
             except PathCut:
                 outcome = "cut"
             path.ghost["ip"] = ip
             if outcome == "return":
+                goals = []
                 for name, fn_, meta in c.ensures_:
                     g = fn_(val)
                     for j, t in enumerate(g if isinstance(g, (list, tuple)) else [g]):
                         if t is None:
                             continue
-                        path.oblige(f"{ip.oid_prefix} / {name}" + (f"#{j}" if isinstance(g, (list, tuple)) and len(g) > 1 else ""),
-                                    t, kind="post", clause=name)
+                        goals.append((f"{ip.oid_prefix} / {name}" + (f"#{j}" if isinstance(g, (list, tuple)) and len(g) > 1 else ""), t, name))
+                registry.saturate(ip)
+                for oid_, t, name in goals:
+                    path.oblige(oid_, t, kind="post", clause=name)
                 # a declared `raises X when C` is an iff: returning normally requires not C
                 for exc_cls, when, nm in c.raises_:
                     if when is not None:
